@@ -190,6 +190,12 @@ fn recovery(spec: &Spec, pa: &[f64], pb: &[f64], tail: &[f64], floor: f64, tol: 
     Ok(rec)
 }
 
+/// chains made of low-pass filters with unit DC gain only: a constant stretch is an admissible tail and the output
+/// stays inside the range of the input (up to a few percent of overshoot)
+fn feedback_chain(tree: &Spec) -> bool {
+    tree.any(&|x| x.k != K::Echo) && !tree.any(&|x| !matches!(x.k, K::Echo | K::Ema | K::EmaAlpha | K::SuperSmoother | K::LaguerreFilter | K::Sma | K::Alma))
+}
+
 fn chain_nodes(spec: &Spec) -> Vec<&Spec> {
     let mut v = vec![];
     let mut s = spec;
@@ -282,6 +288,30 @@ impl Prop for C09 {
             };
             let shape = r.below(SHAPES.len()) as u8;
             sc.feeds.push(Feed::Gen { seed: r.next_u64(), shape, len, scale: s_scale / 4.25, positive: r.chance(0.5), quant: 0.0 });
+            sc.set_int("s_scale_bits", s_scale.to_bits() as i64);
+        } else if feedback_chain(&tree) && r.chance(0.3) {
+            // closed-loop client: a consumer that bridges a data gap by re-feeding the chain its own last reading.
+            // Replica A receives prefix A, replica B prefix B; from the merge on both receive the same stream, which
+            // starts with H >= T copies of the value replica A reported at the merge (computed at run time from the
+            // real view) and continues with live data. All-low-pass chains only: a constant stretch is admissible for
+            // them and the held value lies inside the tail domain [S/2, 2S].
+            sc.mode = "feedback".into();
+            let t_h = horizon(&tree).unwrap();
+            let hold = t_h + r.range(0, t_h / 2 + 1);
+            let tail_shape = *r.pick(&[12u8, 1, 9, 12]);
+            let u = gen_shape(r, tail_shape, 2 * t_h + 2, 1.0, false);
+            let rest: Vec<f64> = u.iter().map(|x| s_scale * (1.25 + 0.375 * x).clamp(0.5, 2.0)).collect();
+            let mut pre = |r: &mut Rng, lo: usize| -> Vec<f64> {
+                let len = r.range(lo, 400);
+                let shape = r.below(SHAPES.len()) as u8;
+                gen_shape(r, shape, len, 1.0, false).iter().map(|x| s_scale * (1.25 + 0.375 * x).clamp(0.5, 2.0)).collect()
+            };
+            let pa = pre(r, 1);
+            let pb = pre(r, 0);
+            sc.feeds.push(Feed::Lit(pa));
+            sc.feeds.push(Feed::Lit(pb));
+            sc.feeds.push(Feed::Lit(rest));
+            sc.set_int("hold_len", hold as i64);
             sc.set_int("s_scale_bits", s_scale.to_bits() as i64);
         } else {
             let t_h = horizon(&tree).unwrap();
@@ -395,14 +425,41 @@ impl Prop for C09 {
             return out;
         }
         match sc.mode.as_str() {
-            "recovery" => {
+            "recovery" | "feedback" => {
                 if sc.feeds.len() < 3 {
                     out.invalid = Some("recovery needs prefix_a, prefix_b, tail".into());
                     return out;
                 }
                 let pa = sc.feeds[0].materialise();
                 let pb = sc.feeds[1].materialise();
-                let tail = sc.feeds[2].materialise();
+                let mut tail = sc.feeds[2].materialise();
+                if sc.mode == "feedback" {
+                    if !feedback_chain(spec) {
+                        out.invalid = Some("feedback mode needs an all-low-pass chain".into());
+                        return out;
+                    }
+                    let hold = sc.int("hold_len").unwrap_or(0).max(0) as usize;
+                    // the value replica A reports at the merge, read from the real view
+                    let mut ctx = Ctx::default();
+                    let mut c = None;
+                    if let Ok(mut a) = try_build::<f64>(spec, &mut ctx) {
+                        if pa.iter().all(|x| try_update(&mut a, *x).is_ok()) {
+                            c = try_last(&a).ok().flatten();
+                        }
+                    }
+                    match c {
+                        Some(c) if c.is_finite() && c >= 0.5 * s_scale && c <= 2.0 * s_scale => {
+                            let mut t = vec![c; hold];
+                            t.extend_from_slice(&tail);
+                            tail = t;
+                            out.stats.hit("reach.feedback_hold_of_own_output");
+                        }
+                        _ => {
+                            out.stats.hit("skip.feedback_value_unavailable");
+                            return out;
+                        }
+                    }
+                }
                 let t_h = match horizon(spec) {
                     Some(t) => t,
                     None => {
@@ -580,7 +637,7 @@ impl Prop for C09 {
     }
 
     fn rule(&self) -> String {
-        "Views cycle systematically through Ema (default and sampled alpha), LaguerreFilter (gamma in {0,0.1..0.9,0.95}), SuperSmoother, RoofingFilter(N,M<=16), CyberCycle, TrendFlex, ReFlex, LaguerreRSI and EhlersFisherTransform over {Ema, Sma, Alma, SuperSmoother, LaguerreFilter}; 30% of runs are two-level chains of these, a quarter of which have a third level. N: 50% from the view's minimum to 9, 37% 10..64, 9% 128, 4% 1000. Mode 'recovery' (7 of 8 runs): two replicas of the same tree; one base stream of 0-400 values gets an independent fault realisation per replica (drop, duplicate, reorder, corrupt, spike bursts up to 500 S - in 15% of the runs 5e5..5e11 S, with the horizon stretched by one third per decade above 1e3 -, up to 300 extra prefix values; S from 1e-12 to 1e9), then both receive the same persistently exciting tail inside [S/2,2S] (uniform noise or random walk; for all-linear chains also sinusoid+noise and exactly constant tails; for LaguerreRSI over the raw stream or a plain low-pass, possibly under further linear filters, also a slow strictly rising ramp, on which LaguerreRSI must end up reporting exactly 1 in both replicas; for EFT directly over the stream also tails that repeat with a period equal to, dividing or doubling the window length). Oracle: with T = T(view,N) from the documented pole radius, |out_A-out_B| <= tol*scale at every delivery from T to the end of the tail (2T, and in 1.5% of runs thousands to a million deliveries more) (tol 1e-9 linear, 1e-6 ratio-type; scale = max(S or output range, largest |out| in the window)). Mode 'bounded' (1 of 8): one replica, 1.4e5 (3%: 1.1e6; thorough 3e5, 8% 1.1e6) deliveries of a feed bounded by S in any of the 14 shapes; every output finite and within 1e6*S (linear) or the analytic bound 5 / 1 / ln199 (ratio-type). distinct = distinct (topology, feed lengths); non-trivial = prefixes actually differ and the window was compared, or a bounded run reached 1e5 deliveries."
+        "Views cycle systematically through Ema (default and sampled alpha), LaguerreFilter (gamma in {0,0.1..0.9,0.95}), SuperSmoother, RoofingFilter(N,M<=16), CyberCycle, TrendFlex, ReFlex, LaguerreRSI and EhlersFisherTransform over {Ema, Sma, Alma, SuperSmoother, LaguerreFilter}; 30% of runs are two-level chains of these, a quarter of which have a third level. N: 50% from the view's minimum to 9, 37% 10..64, 9% 128, 4% 1000. Mode 'recovery' (7 of 8 runs): two replicas of the same tree; one base stream of 0-400 values gets an independent fault realisation per replica (drop, duplicate, reorder, corrupt, spike bursts up to 500 S - in 15% of the runs 5e5..5e11 S, with the horizon stretched by one third per decade above 1e3 -, up to 300 extra prefix values; S from 1e-12 to 1e9), then both receive the same persistently exciting tail inside [S/2,2S] (uniform noise or random walk; for all-linear chains also sinusoid+noise and exactly constant tails; for LaguerreRSI over the raw stream or a plain low-pass, possibly under further linear filters, also a slow strictly rising ramp, on which LaguerreRSI must end up reporting exactly 1 in both replicas; for EFT directly over the stream also tails that repeat with a period equal to, dividing or doubling the window length). Oracle: with T = T(view,N) from the documented pole radius, |out_A-out_B| <= tol*scale at every delivery from T to the end of the tail (2T, and in 1.5% of runs thousands to a million deliveries more) (tol 1e-9 linear, 1e-6 ratio-type; scale = max(S or output range, largest |out| in the window)). Mode 'feedback' (30% of the recovery runs whose chain consists of unit-gain low-passes only - Ema, SuperSmoother, LaguerreFilter, Sma, Alma): a closed-loop client; the replicas get independent prefixes inside [S/2,2S], then both receive H in [T,1.5T] copies of the value replica A itself reported at the merge (read from the real view at run time: a consumer bridging a data gap with the last reading) followed by 2T live values; same oracle, counted from the start of the hold. Mode 'bounded' (1 of 8): one replica, 1.4e5 (3%: 1.1e6; thorough 3e5, 8% 1.1e6) deliveries of a feed bounded by S in any of the 14 shapes; every output finite and within 1e6*S (linear) or the analytic bound 5 / 1 / ln199 (ratio-type). distinct = distinct (topology, feed lengths); non-trivial = prefixes actually differ and the window was compared, or a bounded run reached 1e5 deliveries."
             .into()
     }
     fn assumptions(&self) -> Vec<String> {
@@ -592,6 +649,6 @@ impl Prop for C09 {
         ]
     }
     fn must_reach(&self, _t: Tier) -> Vec<&'static str> {
-        vec!["reach.prefixes_differ", "reach.prefix_lengths_differ", "reach.run_1e5", "fault.drop", "fault.dup", "fault.swap", "fault.corrupt", "fault.spike", "fault.extra_prefix", "oracle.steps_compared"]
+        vec!["reach.prefixes_differ", "reach.prefix_lengths_differ", "reach.run_1e5", "fault.drop", "fault.dup", "fault.swap", "fault.corrupt", "fault.spike", "fault.extra_prefix", "oracle.steps_compared", "reach.feedback_hold_of_own_output"]
     }
 }
